@@ -78,3 +78,25 @@ claim("C09", "Go race detector on a race-instrumented harness + sequential-equiv
       "Per configuration (2-32 goroutines, GOMAXPROCS 1-16, hook-driven yield probability) a race-instrumented child shares a pool of parsed trees covering every builtin, operator and node kind among goroutines that each evaluate them with their own runner and goroutine-specific data, run the field analysis, and parse valid and invalid texts of their own (fresh identifiers, formatted diagnostics); GORACE logs are collected and de-duplicated by access-site pair, Go runtime fatals (concurrent map access) are attributed through breadcrumbs, and every concurrent result must equal the one computed sequentially for that goroutine's data. Overlapping evaluations of the same tree and injected yields are counted in the evidence.",
       "Trusts the Go race detector (reports only executed paths, bounded history); schedules are those that occurred under the listed configurations.",
       "5/C09")
+
+# ---- additions of later rounds (appended to the level text of the property) -----------------------------
+_HOST = " Every parse happens in a guarded, reused host buffer (text between live canary bytes inside the slice's capacity; any byte written is a violation; the buffer is overwritten before the tree is used), evaluations receive background, cancellable, deadline and value-carrying contexts."
+_MORE = {
+ "C07": " A callee held in a local is read before its arguments (function values in the reference evaluator); every callable x every data name is called directly, repeatedly, through locals and spread, and every operator template applied, under the deep snapshot.",
+ "C08": " One tree is parsed from a private buffer and one from the reused host buffer (dumps, results and fields must agree); each formula is also evaluated against ONE long-lived data object between other formulas; the value returned by the first evaluation is read again after all later ones.",
+ "C11": " argument-preserved: a number object handed to a parameter arrives unchanged at a later interface{} parameter and reads back exactly; returned-error: eleven kinds of returned error (wrapped, joined, from nested evaluations via RunnerFromCtx, custom As/Is) must name the called function.",
+ "C16": " Member access is applied to parenthesised/conditional/??/comma/assignment operands; names-follow-the-map changes the data by every host route after an evaluation that read or assigned the name; 300-character keys differing in the last character.",
+ "C20": " stored-number stability (a local's text, comparisons and differences inside the binding evaluation and in later ones), failure storm (thousands of failing evaluations of 19 kinds, then ordinary and deeply nested formulas compared with a fresh runner), exact representation of every entry an operation did not write.",
+ "C04": " Digit separators in spelled literals; stored-number stability across evaluations.",
+ "C18": " Every case is evaluated again with its operands held in locals, applied twice, and the locals read back; bit-operator operands also spelled with exponents.",
+ "C06": " Half of the nested cases and all chains of two selection operators are printed with minimal parentheses and tight spacing; nil decimals among the null operands.",
+ "C09": " Runners without a data map (never set, nil, created by SetThisValue) assign and read locals concurrently.",
+ "C10": " Names differing only in case, in a prefix or not at all are mentioned in every order.",
+ "C15": " The line helpers are also exercised through the SourceCode of accepted and rejected parses.",
+ "C17": " Defined string-like types are compared with their underlying types; format characters that are not white space sit at string edges.",
+ "C05": " Nil decimals (data, locals, host results) among the nulls; numbers near 1e+-6200.",
+ "C03": " Struct types embedding pointers to themselves / each other; defined byte and rune slice types.",
+ "C14": " Layouts also break lines after '.' and '!.'.",
+}
+for _i in CLAIMED:
+    CLAIMED[_i]["text"] += _MORE.get(_i, "") + _HOST
